@@ -214,6 +214,18 @@ def chk_case(inp, c):
     if not c.require(isinstance(out, tuple) and len(out) == 3, "returns (X, B_pred, B_var)", mechanism="return-type"):
         return
     X, Bp, Bv = (np.asarray(o, float) for o in out)
+    # a query is pure: the registered variance model is unchanged and asking again gives the same answer
+    if ek == "uncertainty":
+        c.require(np.allclose(np.asarray(est.Epsilon), Eps_model, rtol=1e-10, atol=1e-300),
+                  "minimize_variance does not change the registered variance model", mechanism="epsilon-changed-by-query")
+    if ek == "explicit":
+        c.require(np.array_equal(args["Epsilon"], inp["Eps"]), "minimize_variance does not modify the variance matrix passed in",
+                  mechanism="caller-array-modified:Epsilon")
+    ok2, out2 = c.try_call(est.minimize_variance, B.copy(), **args, **kw)
+    if ok2:
+        c.require(np.allclose(np.asarray(out2[2], float), Bv, rtol=1e-6, atol=1e-12) and
+                  np.allclose(np.asarray(out2[0], float), X, rtol=1e-5, atol=1e-7 * (1 + np.max(np.abs(X)))),
+                  "asking twice gives the same intensities and variances", mechanism="second-call-differs")
     if not c.require(X.shape == (N, n) and Bp.shape == (N, m) and Bv.shape == (N, m) and np.all(np.isfinite(X)),
                      "finite results of shape (N,n)/(N,m)/(N,m)", mechanism="shape", X=list(X.shape), Bv=list(Bv.shape)):
         return
